@@ -22,6 +22,7 @@ type rec struct {
 	Obs    bool   `json:"obs"`    // obs: observations were possible
 	Q      bool   `json:"q"`      // obs: the implementation is quiescent (nothing in flight, no gate closed)
 	RK     bool   `json:"rk"`     // obs: resv is meaningful (the service answers Status)
+	By     string `json:"by"`     // obs: bystander lease: - | ok | disturbed: ...
 	ID     int    `json:"id"`     // reset: script number
 	Pre    bool   `json:"pre"`    // reset: deployment pre-existing at service start
 	Script string `json:"script"` // reset: the stimuli, space separated (information only)
@@ -31,7 +32,7 @@ type rec struct {
 }
 
 func blank(e, th string, ts int) rec {
-	return rec{E: e, Case: "-", R: "-", C: "-", T: "-", Out: "-", State: "-", Issued: "-", th: th, ts: ts}
+	return rec{E: e, Case: "-", R: "-", C: "-", T: "-", Out: "-", State: "-", Issued: "-", By: "-", th: th, ts: ts}
 }
 
 // fold turns raw observations into per-thread sequences of specification steps.
@@ -56,6 +57,7 @@ func fold(raws []raw) map[string][]rec {
 			if x.K == "obs" {
 				r.Resv, r.Hn, r.Obs = x.Runch, x.Err, x.R == "ok"
 				r.Q, r.RK = x.C == "q", x.State == "resv-known"
+				r.By = x.By
 			}
 			add(r)
 		case "X":
